@@ -686,7 +686,7 @@ def _tensor_pipe(st, P, cur, ci, fuse, lastl, fail, col):
                 fail('as_completely_blocked:split', got=back.to_ndarray().tolist())
 
 
-OP_MAXN, OP_MAXROWS = 24, 9
+OP_MAXN, OP_MAXROWS = 16, 9
 
 
 def _operator_pipe(mods, P, cur, ci, fl, effs, fmap, fail, col):
